@@ -1282,7 +1282,7 @@ def relational_molecules(ctx):
         for tag, c in isotope_decorations(molgen.parse(t), limit=2 if ctx.quick else 4):
             out.append((f'{t}{tag}', None, c))
     smis = molgen.corpus_smiles()
-    for i in rng.sample(range(len(smis)), 500 if ctx.quick else 1700):
+    for i in rng.sample(range(len(smis)), 350 if ctx.quick else 1500):
         m = molgen.parse(smis[i])
         if m is not None:
             out.append((f'corpus[{i}]', smis[i], m))
@@ -1367,7 +1367,7 @@ def relational(ctx, mols=None, nvar=None):
             if ok and r == 0:
                 compare_formats(ctx, name, base, c, mapping)
         special = bool(stereo_elements(base)) or base.is_radical or any(b.order == 8 for _, _, b in base.bonds())
-        if special or rng.random() < 0.25:
+        if special or rng.random() < (0.12 if ctx.quick else 0.2):
             import random as _random
             for hname in (HISTORIES if special else rng.sample(list(HISTORIES), 3)):
                 seed = rng.randrange(2 ** 31)
